@@ -95,16 +95,35 @@ func ParseDeviceCodeClientSecret(wwwAuthenticate string) string {
 
 // parseQuotedParam extracts a quoted parameter value (key="value") from a
 // WWW-Authenticate header value. Returns an empty string if not found.
+//
+// The parameter name is matched only outside quoted strings and only as a
+// whole name, so client_id is not found inside device_code_client_id and a
+// name that happens to occur inside another parameter's value is ignored.
 func parseQuotedParam(header, param string) string {
 	key := param + `="`
-	idx := strings.Index(header, key)
-	if idx == -1 {
-		return ""
+	inQuote := false
+	for i := 0; i < len(header); i++ {
+		if header[i] == '"' {
+			inQuote = !inQuote
+			continue
+		}
+		if inQuote || !strings.HasPrefix(header[i:], key) {
+			continue
+		}
+		if i > 0 && isAuthParamNameByte(header[i-1]) {
+			continue
+		}
+		rest := header[i+len(key):]
+		end := strings.IndexByte(rest, '"')
+		if end == -1 {
+			return ""
+		}
+		return rest[:end]
 	}
-	rest := header[idx+len(key):]
-	end := strings.Index(rest, `"`)
-	if end == -1 {
-		return ""
-	}
-	return rest[:end]
+	return ""
+}
+
+// isAuthParamNameByte reports whether c can be part of an auth-param name.
+func isAuthParamNameByte(c byte) bool {
+	return c == '_' || c == '-' || (c >= 'a' && c <= 'z') || (c >= 'A' && c <= 'Z') || (c >= '0' && c <= '9')
 }
